@@ -18,6 +18,10 @@ This harness
       model's;
   (3) explores: any effect whose real path lies outside the destination (audit hook) or any
       change of the surroundings (snapshot) is a C03 violation, the archive being the replay.
+      Since the repair of C03-symlink-chain (real-path checks before every output is touched) no
+      archive of the exploration may escape: chains of links that each pass the lexical test, the
+      order "link to B/.. while B is missing, then B", links that were in the destination before
+      (initial state "poplnk") and a destination reached through a link are part of every run.
 
 SAFETY.  Every real extraction runs in a worker subprocess that has chroot()ed into a fresh
 directory below one tempfile.mkdtemp(); absolute member names, link targets and '..' chains can
@@ -41,21 +45,27 @@ GEN_DEPS = []
 LEVEL = "proof"
 TRUSTED_BASE = [
     "Coq 8.16.1 kernel, vm_compute (no native_compute); no axioms (Print Assumptions: closed)",
-    "theories/FS.v as a model of CPython 3.12 pathlib (parse, joinpath, parent, ordering, mkdir/touch/exists) and of "
+    "theories/FS.v as a model of CPython 3.12 pathlib (parse, joinpath, parent, ordering, mkdir/touch/exists), of "
     "Linux path resolution (physical '..', symlink following, 40-link limit, final-component rules of mkdir/open/"
-    "unlink/symlink/utimensat/chmod): hand-written, validated against the running kernel on every run",
-    "theories/ExtractFS.v as a transcription of py7zr.py 529-656 and 1273-1449: validated against the code on every run "
-    "(outcome, ordered effects, final tree)",
+    "unlink/symlink/utimensat/chmod) and of os.path.realpath (posixpath._joinrealpath, strict=False: no link limit, "
+    "loop detection through `seen`, missing names kept): hand-written, validated against the running kernel and "
+    "os.path.realpath on every run",
+    "theories/ExtractFS.v as a transcription of SevenZipFile._extract, Worker.extract/_extract_single and the post-pass, "
+    "real-path checks included: validated against the code on every run (outcome, ordered effects, final tree)",
     "extraction (ExtrOcamlBasic only) + ocaml/driver.ml for running the model",
     "the audit hook (open, os.mkdir, os.symlink, os.chmod, os.utime, os.remove, os.rmdir, os.rename, os.truncate, "
     "os.link, os.chown) and the before/after snapshot as observers of what the implementation did",
 ]
 ASSUMPTIONS = [
     "decompression delivers each member's bytes (CRC errors, codecs are other properties); archives are well-formed",
-    "sequential extraction order (one folder, or several folders from a stream); with several folders opened by path "
-    "py7zr runs one thread per folder: confinement is still observed there, equality with the model only counted",
+    "sequential extraction order (one folder, several folders from a stream, or any archive with a link member: py7zr "
+    "extracts those member after member); archives WITHOUT link members of several folders opened by path run one thread "
+    "per folder: the links of the tree do not change during such a run, confinement is observed there, equality with the "
+    "model only counted",
     "no concurrent modification of the destination by other processes; permissions never deny (extraction as owner)",
-    "main theorem: destination is an existing real directory (no link on the way) given as a canonical path",
+    "main theorem: every name of the tree lies in a directory (wf), the current directory exists, the destination (any "
+    "form, links allowed on the way) resolves to a directory; destinations beginning with exactly two slashes need "
+    "dest_rooted (true of '//jail/dest')",
 ]
 
 HERE = os.path.dirname(os.path.abspath(__file__))
@@ -63,11 +73,16 @@ TOOLS = os.path.dirname(HERE)
 
 # ------------------------------------------------------------------ the jail (paths as seen inside the chroot)
 DEST = "/jail/dest"
-BASE_TREE = [["jail", "d", ""], ["jail/out", "d", ""], ["jail/out/f", "f", "OUT"], ["jail/cwd", "d", ""]]
+BASE_TREE = [["jail", "d", ""], ["jail/out", "d", ""], ["jail/out/f", "f", "OUT"], ["jail/cwd", "d", ""],
+             ["jail/dl", "l", "dest"]]          # a link to the destination: the user's `path` may go through it
 INITS = {
     "empty": [["jail/dest", "d", ""]],
     "pop": [["jail/dest", "d", ""], ["jail/dest/a", "d", ""], ["jail/dest/a/b", "f", "old"], ["jail/dest/b", "f", "oldb"]],
     "missing": [],
+    # links that were in the destination before: to a directory and a file outside, to a directory inside, dangling ones
+    "poplnk": [["jail/dest", "d", ""], ["jail/dest/a", "d", ""], ["jail/dest/a/b", "f", "old"],
+               ["jail/dest/lo", "l", "../out"], ["jail/dest/lf", "l", "/jail/out/f"], ["jail/dest/li", "l", "a"],
+               ["jail/dest/ld", "l", "../out/new"], ["jail/dest/lp", "l", ".."]],
 }
 # destination variants: name -> (cwd, path argument)
 DESTS = {
@@ -76,6 +91,8 @@ DESTS = {
     "rel2": ("/jail/cwd", "../dest"),
     "none": ("/jail/dest", None),
     "abs2": ("/jail/cwd", "//jail/dest"),
+    "lnk": ("/jail/cwd", "/jail/dl"),          # the destination is reached through a symbolic link
+    "lnkrel": ("/jail", "dl"),
 }
 EXN_CODES = {"Bad7zFile": 1, "FileExistsError": 2, "IsADirectoryError": 3, "NotADirectoryError": 4,
              "FileNotFoundError": 5, "ELOOP": 6, "DecompressionError": 7, "AttributeError": 8, "TypeError": 9}
@@ -476,7 +493,8 @@ def run_extract_job(job, model):
         hard, soft = _changes(before, after, DEST)
         esc_events = [ev for ev in events if ev[2] and not _inside(ev[1], DEST)]
         res = {"variant": [dest, how, init], "outcome": outcome, "mode": mode, "exc": _H.last_exc}
-        parallel = (how == "path" and mode == 1)
+        # one thread per folder only for archives without link members (py7zr extracts the others member after member)
+        parallel = (how == "path" and mode == 1 and not any(e["kind"] == "l" for e in entries))
         # ---- the model on the same case
         cwd, patharg = DESTS[dest]
         m = model.call("fs_extract", [model_fs(tree), rp(cwd), [] if patharg is None else [pp(patharg)],
@@ -536,6 +554,14 @@ def run_ops_job(job, model):
     tree, cwd, ops = job["tree"], job["cwd"], job["ops"]
     _setup_tree(tree)
     os.chdir(cwd)
+    # os.path.realpath (what the real-path checks of the extraction rest on) against FS.v py_realpath, on the initial tree
+    rdiffs = []
+    for q in sorted(set([op[1] for op in ops] + [op[2] for op in ops if op[0] == 6] + job.get("extra_paths", []))):
+        real = os.path.realpath(q)
+        got = model.call("fs_realpath", [model_fs(tree), rp(cwd), pp(q)])
+        got = ("/" + "/".join(l2s(c) for c in got[0])) if got else None
+        if got != real:
+            rdiffs.append("realpath(%r): model %r os.path %r" % (q, got, real))
     codes = []
     _H.events = []
     _H.armed = True
@@ -603,6 +629,7 @@ def run_ops_job(job, model):
                                            for k in keys if m_fs.get(k) != after.get(k))[:600])
     if m_eff != real_eff:
         diffs.append("effects: model %r real %r" % (m_eff, real_eff))
+    diffs += rdiffs
     return [{"agree": not diffs, "diffs": diffs, "codes": codes}]
 
 
@@ -840,10 +867,40 @@ TEMPLATES = [
     [("a/l", "l", "../../dest_x"), ("a/l/x", "f", "DATA")],
     [("d", "d", ""), ("d/l", "l", "../../destx"), ("d/l/x", "f", "DATA")],
 ]
+# chains of links that each pass the lexical test (the repaired finding C03-symlink-chain): through one another, in the order
+# "target first missing, then a link", into a directory / an empty member / a link, a member replaced by a link before the
+# post-pass; (name, kind, data[, empty])
+CHAINS = [
+    [("l", "l", "."), ("l/m", "l", ".."), ("l/m/x", "f", "DATA")],
+    [("l", "l", "."), ("l/m", "l", ".."), ("l/m/x", "f", "", True)],
+    [("l", "l", "."), ("l/m", "l", ".."), ("l/m/x", "d", "")],
+    [("l", "l", "."), ("l/m", "l", ".."), ("l/m/k", "l", "a")],
+    [("l", "l", "."), ("l/m", "l", ".."), ("l/m/out/f", "f", "DATA")],
+    [("l", "l", "."), ("l/m", "l", ".."), ("l/m/n/x", "f", "DATA")],
+    [("A", "l", "B/.."), ("B", "l", "."), ("A/x", "f", "DATA")],
+    [("A", "l", "B/.."), ("B", "l", "."), ("A/n/x", "f", "DATA")],
+    [("A", "l", "B/.."), ("A/x", "f", "DATA"), ("B", "l", ".")],
+    [("d", "d", ""), ("d/A", "l", "B/../.."), ("d/B", "l", "."), ("d/A/x", "f", "DATA")],
+    [("a", "f", "DATA"), ("l", "l", "."), ("./a", "l", "l/..")],
+    [("a", "f", "", True), ("l", "l", "."), ("./a", "l", "l/..")],
+    [("l", "l", "."), ("l/m", "l", ".."), ("l/m/out/f", "l", "a")],
+    [("s", "l", "s"), ("s/x", "f", "DATA")],
+    [("s", "l", "t"), ("t", "l", "s/.."), ("t/x", "f", "DATA")],
+]
+# members named through links that were in the destination before (initial state "poplnk")
+PRELINKS = [
+    [("lo/x", "f", "DATA")], [("lo/n", "d", "")], [("lo/n/x", "f", "DATA")], [("lf", "f", "DATA")], [("lf", "f", "", True)],
+    [("li/x", "f", "DATA")], [("li/b", "f", "DATA")], [("ld", "f", "DATA")], [("ld", "f", "", True)], [("ld/x", "f", "DATA")],
+    [("lp/x", "f", "DATA")], [("lp/dest/y", "f", "DATA")], [("lo/k", "l", "a")], [("lo", "l", "a")], [("lo", "d", "")],
+    [("k", "l", "lo"), ("k/x", "f", "DATA")], [("k", "l", "li/.."), ("k/x", "f", "DATA")],
+    [("k", "l", "lp/dest"), ("k/x", "f", "DATA")], [("lo/f", "f", "", True)], [("lo", "f", "DATA")], [("li", "f", "DATA")],
+]
+ALL_DESTS = ["abs", "rel", "rel2", "none", "abs2", "lnk", "lnkrel"]
 T3 = [".", "..", "a", "a/..", "@prev"]
 ALL_VARIANTS = [(d, h, i) for d in ("abs", "rel", "none") for h in ("stream", "path") for i in ("empty", "pop")]
 ROT = [("none", "stream", "empty"), ("rel", "path", "empty"), ("abs", "stream", "pop"), ("rel2", "stream", "empty"),
-       ("abs", "path", "pop"), ("none", "path", "pop"), ("abs", "stream", "missing"), ("abs2", "stream", "empty")]
+       ("abs", "path", "pop"), ("none", "path", "pop"), ("abs", "stream", "missing"), ("abs2", "stream", "empty"),
+       ("lnk", "stream", "empty"), ("abs", "stream", "poplnk"), ("lnkrel", "path", "pop"), ("none", "stream", "poplnk")]
 
 
 def gen_jobs(tier, rng):
@@ -864,6 +921,15 @@ def gen_jobs(tier, rng):
         slots = [(n, k, ("" if k == "d" else d), k == "d") for (n, k, d) in tpl]
         for vs in (ALL_VARIANTS[:6], ALL_VARIANTS[6:]):
             jobs.append({"type": "extract", "entries": mk_entries(slots), "cuts": [], "variants": list(vs), "n": len(slots)})
+    for tpl in CHAINS + PRELINKS:
+        slots = [(t[0], t[1], ("" if t[1] == "d" else t[2]), (t[1] == "d") or (len(t) > 3 and t[3])) for t in tpl]
+        for d in ALL_DESTS:
+            vs = [(d, h, i) for h in ("stream", "path") for i in ("empty", "pop", "poplnk")]
+            jobs.append({"type": "extract", "entries": mk_entries(slots), "cuts": [], "variants": vs, "n": len(slots)})
+        if len(slots) >= 3:          # the same chain over two folders (empty members first / one thread per folder)
+            jobs.append({"type": "extract", "entries": mk_entries(slots), "cuts": [2],
+                         "variants": [("abs", "stream", "empty"), ("abs", "path", "empty"), ("none", "stream", "poplnk")],
+                         "n": len(slots)})
     # ---- two entries, all ordered pairs
     opts2 = slot_options(N2, T2)
     i = 0
@@ -893,7 +959,8 @@ def gen_jobs(tier, rng):
                     jobs.append({"type": "extract", "entries": es, "cuts": cuts, "variants": vs, "n": 3})
                     i += 1
     # ---- sampled 3 (quick) / 4-5 entries and longer random archives
-    optsR = slot_options(sorted(set(N2 + N3 + ["b/a", "a/b/..", "b/..", "a/./b", "dest", "../dest"])), TARGETS)
+    optsR = slot_options(sorted(set(N2 + N3 + ["b/a", "a/b/..", "b/..", "a/./b", "dest", "../dest", "lo/a", "lf", "li/b", "ld",
+                                               "lp/a", "lo"])), TARGETS + ["lo", "li/..", "b/..", "lp"])
     nsamp = 3000 if tier == "quick" else 40000
     for j in range(nsamp):
         if tier == "quick":
@@ -966,7 +1033,10 @@ def gen_ops_jobs(tier, rng):
                 ops.append([6, p, rng.choice(tgts)])
             else:
                 ops.append([k, p])
-        jobs.append({"type": "ops", "tree": tree, "cwd": rng.choice(["/jail", "/jail", "/"]), "ops": ops, "id": j})
+        extra = ["/".join(rng.choice(comps + ["nx", "."]) for _ in range(rng.randrange(1, 6))) for _ in range(3)]
+        extra = [rng.choice(["", "/jail/", "//jail/a/"]) + x for x in extra]
+        jobs.append({"type": "ops", "tree": tree, "cwd": rng.choice(["/jail", "/jail", "/"]), "ops": ops, "id": j,
+                     "extra_paths": extra})
     return jobs
 
 
